@@ -7,6 +7,8 @@ mod model;
 mod parsex;
 mod polmat;
 mod probes;
+mod sched;
+mod seqfresh;
 mod tracing;
 mod wire;
 mod world;
